@@ -26,7 +26,7 @@ type c10Event struct {
 	Op  string `json:"op"` // edit | pull
 	R   int    `json:"r"`
 	S   int    `json:"s,omitempty"`
-	Res string `json:"res,omitempty"` // remote | local | merge (used only if the verdict is conflict)
+	Res string `json:"res,omitempty"` // lww | merge | remote | local (used only if the verdict is conflict; remote/local only in replays)
 }
 
 var c10Src = []string{"a", "b", "c"}
@@ -38,9 +38,10 @@ type c10Rep struct {
 
 type c10Inst struct {
 	reps  [3]*c10Rep
-	clock  uint64
-	n      int
-	mutual int
+	clock   uint64
+	n       int
+	mutual  int
+	tainted bool // a violation was already reported in this history; everything after it is a consequence
 }
 
 func (in *c10Inst) Close() {}
@@ -91,6 +92,9 @@ func c10ModelVerdict(local, incoming *c10Rep) HLVConflictStatus {
 
 func (in *c10Inst) Enabled() []c10Event {
 	var ev []c10Event
+	if in.tainted {
+		return nil // do not expand histories past their first violation (root causes only)
+	}
 	for r := 0; r < in.n; r++ {
 		ev = append(ev, c10Event{Op: "edit", R: r})
 	}
@@ -100,7 +104,9 @@ func (in *c10Inst) Enabled() []c10Event {
 				continue
 			}
 			if in.reps[r] != nil && c10ModelVerdict(in.reps[r], in.reps[s]) == HLVConflict {
-				for _, res := range []string{"remote", "local", "merge"} {
+				// resolutions: the default last-write-wins policy (both peers pick the higher current version, so it
+				// is "remote wins" or "local wins" depending on the values) and a merge
+				for _, res := range []string{"lww", "merge"} {
 					ev = append(ev, c10Event{Op: "pull", R: r, S: s, Res: res})
 				}
 			} else {
@@ -136,8 +142,43 @@ func verdictName(v HLVConflictStatus) string {
 	return fmt.Sprintf("verdict(%d)", v)
 }
 
+func c10Pos(h *HybridLogicalVector, src string, val uint64) string {
+	if h == nil {
+		return ""
+	}
+	if h.SourceID == src && (val == 0 || h.Version == val) {
+		return "cv"
+	}
+	if v, ok := h.MergeVersions[src]; ok && (val == 0 || v == val) {
+		return "mv"
+	}
+	if v, ok := h.PreviousVersions[src]; ok && (val == 0 || v == val) {
+		return "pv"
+	}
+	return ""
+}
+
 func (in *c10Inst) Apply(e c10Event) map[string]string {
+	if in.tainted {
+		in.applyInner(e)
+		return nil
+	}
+	v := in.applyInner(e)
+	if len(v) > 0 {
+		in.tainted = true
+	}
+	return v
+}
+
+func (in *c10Inst) applyInner(e c10Event) map[string]string {
 	viol := map[string]string{}
+	var localBefore, incomingBefore *HybridLogicalVector
+	if e.Op == "pull" && in.reps[e.S] != nil {
+		incomingBefore = in.reps[e.S].hlv.Copy()
+		if in.reps[e.R] != nil {
+			localBefore = in.reps[e.R].hlv.Copy()
+		}
+	}
 	before := [3]map[string]uint64{}
 	for i, rp := range in.reps {
 		if rp != nil {
@@ -199,8 +240,17 @@ func (in *c10Inst) Apply(e c10Event) map[string]string {
 				local.truth = c10union(local.truth, src.truth)
 			}
 		case HLVConflict:
-			opKind += "-" + e.Res
-			switch e.Res {
+			res := e.Res
+			if res == "lww" || res == "" {
+				// DefaultLWWConflictResolutionType: remote wins iff its current version value is higher
+				if incoming.hlv.Version > local.hlv.Version {
+					res = "remote"
+				} else {
+					res = "local"
+				}
+			}
+			opKind += "-" + res
+			switch res {
 			case "local":
 				nh := incoming.hlv.Copy()
 				nh.UpdateWithIncomingHLV(local.hlv.Copy())
@@ -229,15 +279,27 @@ func (in *c10Inst) Apply(e c10Event) map[string]string {
 			continue
 		}
 		real := c10RealMax(rp.hlv)
+		lostFP := ""
 		for s, tv := range rp.truth {
 			rv, ok := real[s]
 			if !ok || rv < tv {
-				viol["C10/hlv/version-lost/"+opKind] = fmt.Sprintf("after %+v replica %s vector %s no longer records %d@%s (has %d); it has seen %v", e, c10Src[i], rp.hlv.HLVDebugString(), tv, s, rv, rp.truth)
+				kept := c10Pos(rp.hlv, s, 0)
+				if kept == "" {
+					kept = "absent"
+				}
+				origin := "unknown"
+				if p := c10Pos(localBefore, s, tv); p != "" {
+					origin = "local-" + p
+				} else if p := c10Pos(incomingBefore, s, tv); p != "" {
+					origin = "incoming-" + p
+				}
+				lostFP = fmt.Sprintf("C10/hlv/version-lost/%s/kept-older-in-%s/newer-was-in-%s", opKind, kept, origin)
+				viol[lostFP] = fmt.Sprintf("after %+v replica %s vector %s no longer records %d@%s (has %d); it has seen %v", e, c10Src[i], rp.hlv.HLVDebugString(), tv, s, rv, rp.truth)
 			} else if rv > tv {
 				viol["C10/hlv/version-invented/"+opKind] = fmt.Sprintf("after %+v replica %s vector %s records %d@%s but has only seen %v", e, c10Src[i], rp.hlv.HLVDebugString(), rv, s, rp.truth)
 			}
 			if gv, found := rp.hlv.GetValue(s); !found || gv != tv {
-				if _, dup := viol["C10/hlv/version-lost/"+opKind]; !dup && rv == tv {
+				if _, dup := viol[lostFP]; !dup && rv == tv {
 					viol["C10/hlv/getvalue-not-max/"+opKind] = fmt.Sprintf("after %+v replica %s vector %s: GetValue(%s)=%d,%v but highest recorded/seen is %d", e, c10Src[i], rp.hlv.HLVDebugString(), s, gv, found, tv)
 				}
 			}
@@ -246,7 +308,7 @@ func (in *c10Inst) Apply(e c10Event) map[string]string {
 			if _, ok := rp.truth[s]; !ok {
 				viol["C10/hlv/version-invented/"+opKind] = fmt.Sprintf("after %+v replica %s vector %s records %d@%s never seen (%v)", e, c10Src[i], rp.hlv.HLVDebugString(), rv, s, rp.truth)
 			}
-			if b, ok := before[i][s]; ok && rv < b {
+			if b, ok := before[i][s]; ok && rv < b && lostFP == "" {
 				viol["C10/hlv/source-value-lowered/"+opKind] = fmt.Sprintf("after %+v replica %s source %s went from %d to %d (%s)", e, c10Src[i], s, b, rv, rp.hlv.HLVDebugString())
 			}
 		}
